@@ -29,10 +29,10 @@ def fileRemoveDir : String := "indexFirst"
 def markSeenNotFound : String := "errNotExist"
 
 /-- Store.GetMessage: the answer when the search loop over the message list (in the method or a helper it calls) matches nothing — the return guarded by the found-marker test right after the loop, or the final return the loop falls through to; "errNotExist" = storage.ErrNotExist (other results nil), "nil" = all nil -/
-def getNotFound : String := "unknown"
+def getNotFound : String := "errNotExist"
 
 /-- Store.RemoveMessage: the answer when the search loop over the message list (in the method or a helper it calls) matches nothing — the return guarded by the found-marker test right after the loop, or the final return the loop falls through to; "errNotExist" = storage.ErrNotExist (other results nil), "nil" = all nil -/
-def removeNotFound : String := "unknown"
+def removeNotFound : String := "errNotExist"
 
 /-- the message constructor (the function building `Message{… Fid: id …}`): "evictFirstBeforeAdd" iff before the id is drawn there is a `for` loop whose condition, together with the `if`s around it, is exactly { len(<list>) >= C, C > 0 } (folded into the loop condition or not), without break / return, whose body passes <list>[0].ID() to a package function that rewrites the index -/
 def capLoopShape : String := "evictFirstBeforeAdd"
